@@ -73,6 +73,7 @@ fn compare(acc: &mut Acc, iface: &IfaceDesc, variation: &str, sigkey: &str, cano
         }
     };
     acc.res.evaluations += 1;
+    acc.res.sample(|| J::obj(vec![("iface", J::s(iface.name)), ("canonical", J::s(esc(canon))), ("variant", J::s(esc(variant))), ("variation", J::s(variation)), ("outcome", J::strs(got.show()))]));
     if &got != reference {
         acc.res.add_violation(Violation {
             sig: format!("variant-differs/{}", sigkey),
@@ -237,7 +238,9 @@ pub fn run(ctx: &Ctx) -> PropResult {
     res.cov("variants_by_kind", J::Obj(by_var.into_iter().map(|(k, v)| (k, J::Int(v as i64))).collect()));
     res.cov("handler_calls_in_canonical_runs", calls);
     res.cov("errors_in_canonical_runs", errs);
-    res.samples = vec![J::s("\"A:B 5;C?\\n\" vs \"\\x0ba:b\\x005\\x1f;\\x01c?\\r\\n\"")];
+    res.samples.truncate(5);
+    let described: Vec<J> = vec![J::s("\"A:B 5;C?\\n\" vs \"\\x0ba:b\\x005\\x1f;\\x01c?\\r\\n\"")];
+    res.samples.extend(described.into_iter().take(1));
     res.assumptions =
         vec!["only header mnemonics are re-cased / exchanged; character data such as ON is data, not a mnemonic".into()];
     // (blank, after-header) is the canonical rendering itself, so 159 cells differ from it
